@@ -14,6 +14,8 @@ git -C /repo archive HEAD | tar -x -C "$scratch/repo"
 cp known_findings.json "$scratch/verif/"
 rc=0
 for p in $(python3 -c "import json;print(' '.join(json.load(open('$dir/meta.json'))['checks_run']))"); do
+  # EQUIV_ONLY="C02 C17" restricts the run to some of the checks named in meta.json
+  if [ -n "${EQUIV_ONLY:-}" ] && ! echo " $EQUIV_ONLY " | grep -q " $p "; then continue; fi
   VERIF_REPO="$scratch/repo" VERIF_DIR="$scratch/verif" ./check "$p" quick >"$scratch/out.$p" 2>&1; code=$?
   if [ $code -eq 0 ]; then echo "EQUIV $id: $p silent"; else echo "EQUIV $id: $p FALSE ALARM (exit $code): $(grep -m2 -E 'finding key|INCONCLUSIVE' "$scratch/out.$p" | cut -c1-300)"; rc=1; fi
 done
